@@ -196,7 +196,8 @@ def run(case):
                     obs.append(bool(a.has_track(tb.S(o[3]), o[4])))
                 elif kind == "getitem":
                     try:
-                        obs.append([nm(a[tb.S(o[3]), o[4]])])
+                        # annotation[segment] is annotation[segment, '_']
+                        obs.append([nm(a[tb.S(o[3])] if o[4] == "_" else a[tb.S(o[3]), o[4]])])
                     except KeyError:
                         obs.append(None)
                 elif kind == "len":
